@@ -127,7 +127,7 @@ def gen_case(rng, force=None):
     ids = sorted(rng.sample(range(8), n)) if (matrix or rng.random() < 0.3) else list(range(n))
     if shape == "isolated":
         ids = sorted(set(ids) | {max(ids) + rng.randint(1, 2)})[:8] if max(ids) < 7 else ids
-    labels = "int" if matrix else rng.choice(Labels.STYLES)
+    labels = "int" if matrix else rng.choice(Labels.STYLES_X)
     ops = []
     def key(ln):
         k = rng.sample(ids, min(ln, len(ids)))
@@ -545,7 +545,7 @@ def gen_history(rng):
     kind = rng.choice(HIST_KINDS[fn])
     deg2 = fn in ("quso", "qubo") or kind in DEG2
     spin = fn in SPIN_FNS
-    labels = "int" if kind in MATRIX else rng.choice(Labels.STYLES)
+    labels = "int" if kind in MATRIX else rng.choice(Labels.STYLES_X)
     num = rng.choice(["int", "frac", "float"])
     top = rng.randint(0, 2)                # labels 0..top first, larger ones later
     cur = {}                               # squashed key -> Fraction, in dict order
